@@ -84,19 +84,30 @@ def checkVersion (data : J) : M Unit :=
          || a > Const.MAX_VERSION_MAJOR then .error "not within the supported version range"
       else .ok ()
 
-/-! ### the timestamp: `str::parse::<DateTime<Utc>>()`; simplified recogniser, exact on the shapes the
-    generators produce (`YYYY-MM-DDTHH:MM:SS[.f+](Z|±HH:MM)` with plausible field values) -/
+/-! ### the timestamp: `str::parse::<DateTime<Utc>>()`; recogniser of the canonical RFC 3339 shape
+    `YYYY-MM-DD(T|t| )HH:MM:SS[.f+](Z|z|±HH:MM)` with chrono's field ranges: the day must exist in
+    that month of that year (Gregorian leap years), a second of 60 is accepted (leap second, in any
+    minute). chrono's parser also accepts a few non-canonical spellings (`+0100`, blanks around the
+    zone, signed or short years, one-digit fields) that this recogniser refuses: those are outside
+    the modelled domain and are not generated. -/
 def twoDigits (a b : Char) : Option Nat :=
   if a.isDigit && b.isDigit then some ((a.toNat - 48) * 10 + (b.toNat - 48)) else none
+
+def isLeap (y : Nat) : Bool := (y % 4 == 0 && y % 100 != 0) || y % 400 == 0
+
+def daysInMonth (y mo : Nat) : Nat :=
+  if mo == 2 then (if isLeap y then 29 else 28)
+  else if mo == 4 || mo == 6 || mo == 9 || mo == 11 then 30 else 31
 
 def timestampOk (s : String) : Bool :=
   match s.toList with
   | y1 :: y2 :: y3 :: y4 :: '-' :: m1 :: m2 :: '-' :: d1 :: d2 :: sep :: h1 :: h2 :: ':' :: n1 :: n2 :: ':' :: s1 :: s2 :: rest =>
     (y1.isDigit && y2.isDigit && y3.isDigit && y4.isDigit) &&
     (sep == 'T' || sep == 't' || sep == ' ') &&
-    (match twoDigits m1 m2, twoDigits d1 d2, twoDigits h1 h2, twoDigits n1 n2, twoDigits s1 s2 with
-     | some mo, some d, some h, some mi, some se => 1 ≤ mo && mo ≤ 12 && 1 ≤ d && d ≤ 28 && h ≤ 23 && mi ≤ 59 && se ≤ 59
-     | _, _, _, _, _ => false) &&
+    (match twoDigits y1 y2, twoDigits y3 y4, twoDigits m1 m2, twoDigits d1 d2, twoDigits h1 h2, twoDigits n1 n2, twoDigits s1 s2 with
+     | some yh, some yl, some mo, some d, some h, some mi, some se =>
+       1 ≤ mo && mo ≤ 12 && 1 ≤ d && d ≤ daysInMonth (yh * 100 + yl) mo && h ≤ 23 && mi ≤ 59 && se ≤ 60
+     | _, _, _, _, _, _, _ => false) &&
     (let rest' := match rest with
        | '.' :: more => if (more.takeWhile Char.isDigit).isEmpty then ['!'] else more.dropWhile Char.isDigit
        | r => r
